@@ -110,8 +110,27 @@ func c14Pid(s *Session) int {
 	return s.cmd.Process.Pid
 }
 
-// c14Survivors lists "pid:comm" of live (non-zombie) processes whose session id is sid or whose environment has mark.
-func c14Survivors(sid int, mark string) []string {
+// c14NowTicks: now, in clock ticks (1/100 s) since boot -- the unit of the start time in /proc/<pid>/stat.
+func c14NowTicks() uint64 {
+	b, err := os.ReadFile("/proc/uptime")
+	if err != nil {
+		return 0
+	}
+	f := strings.Fields(string(b))
+	if len(f) == 0 {
+		return 0
+	}
+	up, _ := strconv.ParseFloat(f[0], 64)
+	return uint64(up * 100)
+}
+
+// c14Survivors lists "pid:comm" of live (non-zombie) processes that carry the marker environment variable, or whose
+// session id is sid.  Process ids are recycled quickly on this machine: once the session of a finished fzf is empty
+// its number can become the pid -- and session id -- of an unrelated new process (another worker's fzf, another
+// harness).  A match by session id alone therefore only counts when the process was born before `bornBefore`
+// (the moment the fzf process was seen to be gone; 0 = fzf is alive, no guard needed) and does not carry the
+// marker of a different session of this harness.
+func c14Survivors(sid int, mark string, bornBefore uint64) []string {
 	var out []string
 	ents, _ := os.ReadDir("/proc")
 	self := os.Getpid()
@@ -124,29 +143,46 @@ func c14Survivors(sid int, mark string) []string {
 		if err != nil {
 			continue
 		}
-		// pid (comm) state ppid pgrp session ...
+		// pid (comm) state ppid pgrp session ... starttime(22)
 		r := bytes.LastIndexByte(st, ')')
 		l := bytes.IndexByte(st, '(')
 		if r < 0 || l < 0 {
 			continue
 		}
 		f := strings.Fields(string(st[r+1:]))
-		if len(f) < 4 || f[0] == "Z" || f[0] == "X" {
+		if len(f) < 20 || f[0] == "Z" || f[0] == "X" {
 			continue
 		}
 		psid, _ := strconv.Atoi(f[3])
-		hit := sid > 0 && psid == sid
-		if !hit && mark != "" {
-			env, err := os.ReadFile("/proc/" + e.Name() + "/environ")
-			if err == nil && bytes.Contains(env, []byte(mark)) {
-				hit = true
-			}
+		bySid := sid > 0 && psid == sid
+		if !bySid && mark == "" {
+			continue
+		}
+		env, eerr := os.ReadFile("/proc/" + e.Name() + "/environ")
+		hit := false
+		if mark != "" && eerr == nil && bytes.Contains(append(env, 0), append([]byte(mark), 0)) {
+			hit = true
+		} else if bySid {
+			start, _ := strconv.ParseUint(f[19], 10, 64)
+			other := eerr == nil && bytes.Contains(env, []byte("C14MARK="))
+			hit = !other && (bornBefore == 0 || start <= bornBefore)
 		}
 		if hit {
 			out = append(out, e.Name()+":"+string(st[l+1:r]))
 		}
 	}
 	return out
+}
+
+// c14KillSurvivors SIGKILLs every live process carrying the marker / of the session (same guards as c14Survivors).
+func c14KillSurvivors(sid int, mark string, bornBefore uint64) {
+	for _, p := range c14Survivors(sid, mark, bornBefore) {
+		if i := strings.IndexByte(p, ':'); i > 0 {
+			if pid, err := strconv.Atoi(p[:i]); err == nil && pid > 1 {
+				syscall.Kill(pid, syscall.SIGKILL)
+			}
+		}
+	}
 }
 
 // c14TmpLeft lists the files fzf (or its children) left in the private TMPDIR; the harness' own files are
